@@ -49,7 +49,8 @@ theorem skel_RemoveControlConnection :
     Skel.RemoveControlConnection = ["clientRegistry.GetByConnID", "clientRegistry.Remove"] := by decide
 theorem skel_cleanupStaleConnections :
     Skel.cleanupStaleConnections = ["clientRegistry.CleanupStale", "CloseConnection"] := by decide
-theorem skel_CreateConnection : Skel.CreateConnection = ["connLock.Lock", "connLock.Unlock"] := by decide
+/-- (the second `Unlock` is the refusal branch of the cap re-check added by the C17 repair of `CreateConnection`) -/
+theorem skel_CreateConnection : Skel.CreateConnection = ["connLock.Lock", "connLock.Unlock", "connLock.Unlock"] := by decide
 theorem skel_handleHeartbeat : Skel.handleHeartbeat = ["clientRegistry.GetByConnID", "UpdateActivity"] := by decide
 theorem skel_TunnelRemove : Skel.TunnelRemove = ["mu.Lock", "mu.Unlock", "delete", "delete"] := by decide
 
